@@ -81,6 +81,7 @@ type hostRunner struct {
 	ctl     chan error
 	waiting int // number of options presented by the last element, 0 if none
 	ends    int // consecutive END results; after three, further next operations are skipped (both sides apply this rule)
+	held    []heldElem // the last elements the runner returned, with what they showed then
 }
 
 func (h *hostRunner) takeLog() string {
@@ -356,17 +357,56 @@ func (h *hostRunner) next(choice int) (result string) {
 		}
 		return "ERR"
 	case el == nil:
-		return "END"
-	case el.Line != nil:
-		return "L|" + obs.Esc(el.Node) + "|" + lineObs(el.Line)
-	default:
-		h.waiting = len(el.Options)
-		parts := make([]string, len(el.Options))
-		for i, o := range el.Options {
-			parts[i] = strconv.FormatBool(o.Disabled) + "^" + lineObs(o.Line)
+		if stale := h.staleHeld(); stale != "" {
+			return stale
 		}
-		return "O|" + obs.Esc(el.Node) + "|" + strings.Join(parts, "~")
+		return "END"
+	default:
+		if el.Options != nil || el.Line == nil {
+			h.waiting = len(el.Options)
+		}
+		res := elemObs(el)
+		// an element the host was given earlier stays what it was: a game keeps them (backlog, history view)
+		if stale := h.staleHeld(); stale != "" {
+			return stale
+		}
+		h.held = append(h.held, heldElem{el, res})
+		if len(h.held) > 6 {
+			h.held = h.held[1:]
+		}
+		return res
 	}
+}
+
+type heldElem struct {
+	el    *ysgo.DialogueElement
+	first string
+}
+
+// staleHeld re-reads the elements returned by earlier Next calls
+func (h *hostRunner) staleHeld() string {
+	for _, k := range h.held {
+		if again := elemObs(k.el); again != k.first {
+			return "STALE an element returned earlier has changed: " + again + " (was " + k.first + ")"
+		}
+	}
+	return ""
+}
+
+func elemObs(el *ysgo.DialogueElement) (res string) {
+	defer func() {
+		if r := recover(); r != nil {
+			res = "PANIC reading an element"
+		}
+	}()
+	if el.Line != nil {
+		return "L|" + obs.Esc(el.Node) + "|" + lineObs(el.Line)
+	}
+	parts := make([]string, len(el.Options))
+	for i, o := range el.Options {
+		parts[i] = strconv.FormatBool(o.Disabled) + "^" + lineObs(o.Line)
+	}
+	return "O|" + obs.Esc(el.Node) + "|" + strings.Join(parts, "~")
 }
 
 // errText: print the message of errors too (VERIF_ERRTEXT=1)
@@ -411,6 +451,7 @@ func stripHeaders(dump string) string {
 
 // Run executes one case of the run stream.
 func Run(c *sexp.S, out *Out) {
+	noskip := c.Find("noskip") != nil // long sessions: keep calling Next after the end
 	runners := map[int]*hostRunner{}
 	var snaps []*ysgo.Snapshot
 	var srcs []string
@@ -456,7 +497,7 @@ func Run(c *sexp.S, out *Out) {
 				out.Put("NORUNNER")
 				continue
 			}
-			if r.ends >= 3 || r.tooBig() {
+			if (r.ends >= 3 && !noskip) || r.tooBig() {
 				out.Put("SKIP")
 				continue
 			}
